@@ -18,7 +18,9 @@ RULE = ("flow cases: population (1-30 taxa, 1-24 markers, ploidy 1/2/4, taxon na
         "numeric strings, integer objects, or absent; groups present/absent/taxa-grouped) x genomic model (additive q=1, additive q>1, "
         "additive+dominance, rrBLUPModel0; 1-3 traits, labels present/absent, exact-zero effects, large intercept) x trial "
         "(1-6 environments, scalar or per-environment replicate counts, variances all-zero / None / scalar / per-trait incl. zeros, "
-        "optional set_h2/set_H2 with h in (0,1] incl. 1 and 1e-6, rng Generator/RandomState/global) x phenotype-frame variant "
+        "optional session of 1-4 set_h2/set_H2 calls on the one live protocol object (h in (0,1] incl. 1 and 1e-6; the population itself, a "
+        "sub-selection of it, or new taxa of another size and allele frequency; interleaved with phenotype() and re-assignment of var_err / gpmod; "
+        "every call judged for the population passed in that call), rng Generator/RandomState/global) x phenotype-frame variant "
         "(as returned, rows shuffled, index reset, unbalanced after row deletion, renamed + junk columns, trait subset/reversed) x "
         "genotype matrix for alignment (None, same, permuted, subset, with never-phenotyped taxa, only unphenotyped, phased or "
         "unphased, own group labels, taxa-grouped).  stat cases: 400-3000 environments x 1-4 replicates x 1-12 taxa, exact "
@@ -79,12 +81,12 @@ def gen_population(g):
     return pg, dict(names=nkind, groups=gkind + ("/taxa-grouped" if grouped else ""), ploidy=ploidy, mono=mono)
 
 
-def gen_model(g, p, stat=False):
+def gen_model(g, p, stat=False, nt=None):
     from pybrops.model.gmod.DenseAdditiveLinearGenomicModel import DenseAdditiveLinearGenomicModel
     from pybrops.model.gmod.DenseAdditiveDominanceLinearGenomicModel import DenseAdditiveDominanceLinearGenomicModel
     from pybrops.model.gmod.rrBLUPModel0 import rrBLUPModel0
     kind = ["additive q=1", "additive q=1", "additive q>1", "additive+dominance", "additive+dominance", "rrBLUPModel0"][int(g.integers(6))]
-    nt = int(g.integers(1, 4))
+    nt = int(g.integers(1, 4)) if nt is None else nt
     q = int(g.integers(2, 4)) if kind == "additive q>1" else 1
     beta = g.normal(0, 5, (q, nt))
     big = (not stat) and g.random() < 0.15
@@ -356,6 +358,103 @@ def judge_estimate(ctx, bv, gt, means, fgroups, tr, colscale, icls, gcls, coords
     return {t: mat[i] for i, t in rows.items()}
 
 
+def gen_other_population(g, pg, kind):
+    """A population other than ``pg`` with the same markers: a sub-selection of it, or new taxa with skewed allele frequencies."""
+    from pybrops.popgen.gmat.DensePhasedGenotypeMatrix import DensePhasedGenotypeMatrix
+    n, p = pg.ntaxa, pg.nvrnt
+    if kind == "sub-selection":
+        k = int(g.integers(1, n + 1))
+        return pg.select_taxa(numpy.sort(g.permutation(n)[:k]))
+    m = int(g.choice([1, 2, 4, 9, 25, 40]))
+    f = float(g.choice([0.05, 0.2, 0.5, 0.9]))
+    raw = (g.random((pg.mat.shape[0], m, p)) < f).astype("int8")
+    return DensePhasedGenotypeMatrix(raw, taxa=numpy.array(["s%02d" % i for i in range(m)], dtype=object), taxa_grp=None,
+                                     vrnt_chrgrp=numpy.ones(p, dtype="int64"), vrnt_phypos=numpy.arange(1, p + 1, dtype="int64"))
+
+
+def judge_h2(ctx, pt, hkind, h, pop, Mc, ncall, history, coords):
+    """C14.h2 after ONE set_h2/set_H2 call: the ratio is judged for the population passed in that call and the model assigned at that time."""
+    nt = Mc["nt"]
+    raw = numpy.asarray(pop.mat)
+    gv = FT.additive_values(raw, Mc["beta"], Mc["u_a"]) if hkind == "set_h2" else FT.genotypic_values(raw, Mc["beta"], Mc["u_a"], Mc["u_d"])
+    scale = FT.value_scale(raw, Mc["beta"], Mc["u_a"], Mc["u_d"])
+    site = "G_E_Phenotyping." + hkind
+    hv = as_vec(h, nt)
+    got = numpy.asarray(pt.var_err, dtype=float)
+    n = raw.shape[1]
+    v0 = gv.var(0); v1 = gv.var(0, ddof=1) if n > 1 else v0
+    icls = "%s, %s" % ("dominance model" if Mc["u_d"] is not None else "additive model",
+                       "first call on the protocol object" if ncall == 0 else "second and later calls on the same protocol object")
+    if got.shape != (nt,):
+        ctx.check("C14.h2", False, site, "var_err has one entry per trait", icls, witness={"var_err": got, "history": history}, coords=coords)
+        return
+    for j in range(nt):
+        if not (v0[j] > 1e-12 * max(1.0, scale[j] ** 2)):
+            ctx.sumnote("h2: traits with no genetic variance (not judged)")
+            continue
+        r0 = v0[j] / (v0[j] + got[j]); r1 = v1[j] / (v1[j] + got[j])
+        d = min(abs(r0 - hv[j]), abs(r1 - hv[j]))
+        okj = d <= 1e-9 and (hv[j] < 1.0 or got[j] == 0.0)
+        ctx.maxnote("h2: worst |ratio - target|", d)
+        ctx.check("C14.h2", okj, site, "genetic / (genetic + error variance) == target for the population passed in the call", icls,
+                  what="%s(%r) as call #%d on one protocol object: var_err=%r gives ratio %.12g (variance %.6g of the %d taxa passed) for target %.12g"
+                  % (hkind, h, ncall + 1, got[j], r0, v0[j], n, hv[j]),
+                  witness={"history": history, "h": h, "var_err": got, "genetic variance of the population passed (ddof 0)": v0, "model": Mc["kind"],
+                           "beta": Mc["beta"], "u_a": Mc["u_a"], "u_d": Mc["u_d"], "raw of the population passed": raw}, coords=coords)
+
+
+def h2_session(ctx, g, pt, pg, mod, M, coords):
+    """1-4 set_h2/set_H2 calls on one live protocol with different populations and targets, interleaved with phenotype() calls and
+    re-assignments of var_err / gpmod; every call is judged.  Returns the kind of the last successful call (None if none)."""
+    ncalls = 1 if g.random() < 0.3 else int(g.integers(2, 5))
+    Mc, modc = M, mod
+    history = []
+    last = None
+    done = 0
+    for step in range(ncalls):
+        # ---- interleaved operations that must not influence the next call
+        if step > 0:
+            op = int(g.integers(5))
+            try:
+                if op == 0:
+                    pt.phenotype(gen_other_population(g, pg, "new taxa") if g.random() < 0.5 else pg)
+                    ctx.hook("G_E_Phenotyping.phenotype calls"); history.append("phenotype()")
+                elif op == 1:
+                    pt.var_err = float(g.choice([0.0, 1.0, 7.5])) if g.random() < 0.5 else g.uniform(0, 5, Mc["nt"])
+                    history.append("var_err re-assigned")
+                elif op == 2 and g.random() < 0.6:
+                    if g.random() < 0.5:
+                        modc, Mc = gen_model(g, pg.nvrnt, nt=M["nt"])
+                        history.append("gpmod re-assigned (new %s model)" % Mc["kind"])
+                    else:
+                        history.append("gpmod re-assigned (same model)")
+                    pt.gpmod = modc
+            except Exception as e:
+                ctx.raised("interleaved operation in a heritability session", e)
+        # ---- the call
+        hkind = "set_h2" if g.random() < 0.6 else "set_H2"
+        hm = int(g.integers(5))
+        h = [1.0, 0.5, 1e-6, float(g.uniform(0.01, 1.0)), None][hm]
+        if h is None:
+            h = g.uniform(0.05, 1.0, Mc["nt"])
+        pk = "the population" if (step == 0 and g.random() < 0.6) else ["the population", "sub-selection", "new taxa", "new taxa"][int(g.integers(4))]
+        pop = pg if pk == "the population" else gen_other_population(g, pg, pk)
+        history.append("%s(%s, %s of %d taxa)" % (hkind, numpy.round(h, 6).tolist() if numpy.ndim(h) else h, pk, pop.ntaxa))
+        try:
+            getattr(pt, hkind)(h, pop)
+        except Exception as e:
+            ctx.raised("G_E_Phenotyping." + hkind, e)
+            continue
+        ctx.hook("set_h2/set_H2 calls")
+        ctx.sumnote("h2 calls as %s" % ("first call on the protocol" if done == 0 else "second and later calls on the protocol"))
+        judge_h2(ctx, pt, hkind, h, pop, Mc, done, list(history), coords)
+        done += 1
+        last = hkind
+    if modc is not mod:
+        pt.gpmod = mod          # the trial below is judged against the case's model
+    return last
+
+
 def case_flow(ctx, c):
     from pybrops.breed.prot.pt.G_E_Phenotyping import G_E_Phenotyping
     from pybrops.breed.prot.pt.TruePhenotyping import TruePhenotyping
@@ -389,43 +488,14 @@ def case_flow(ctx, c):
         pt = G_E_Phenotyping(mod, nenv=nenv, nrep=nrep_arg, var_env=venv, var_rep=vrep, var_err=verr, rng=rng)
     except Exception as e:
         ctx.raised("G_E_Phenotyping()", e); return
-    # ---- heritability
+    # ---- heritability: a session of set_h2/set_H2 calls on this one live protocol object
     hkind = None
-    if g.random() < 0.45:
-        hkind = "set_h2" if g.random() < 0.6 else "set_H2"
-        hm = int(g.integers(5))
-        h = [1.0, 0.5, 1e-6, float(g.uniform(0.01, 1.0)), None][hm]
-        if h is None:
-            h = g.uniform(0.05, 1.0, nt)
-        gv = addv if hkind == "set_h2" else truth
-        site = "G_E_Phenotyping." + hkind
-        try:
-            getattr(pt, hkind)(h, pg)
-            ctx.hook("set_h2/set_H2 calls")
-        except Exception as e:
-            ctx.raised(site, e); hkind = None
-        if hkind is not None:
-            hv = as_vec(h, nt)
-            got = numpy.asarray(pt.var_err, dtype=float)
-            v0 = gv.var(0); v1 = gv.var(0, ddof=1) if n > 1 else v0
-            icls_h = "%s" % ("dominance model" if M["u_d"] is not None else "additive model")
-            ok = got.shape == (nt,)
-            for j in range(nt if ok else 0):
-                if not (v0[j] > 1e-12 * max(1.0, scale[j] ** 2)):
-                    ctx.sumnote("h2: traits with no genetic variance (not judged)")
-                    continue
-                r0 = v0[j] / (v0[j] + got[j]); r1 = v1[j] / (v1[j] + got[j])
-                okj = min(abs(r0 - hv[j]), abs(r1 - hv[j])) <= 1e-9 and (hv[j] < 1.0 or got[j] == 0.0)
-                ctx.maxnote("h2: worst |ratio - target|", min(abs(r0 - hv[j]), abs(r1 - hv[j])))
-                ctx.check("C14.h2", okj, site, "genetic / (genetic + error variance) == target", icls_h,
-                          what="%s(%r): var_err=%r gives ratio %.12g (population variance %.6g) for target %.12g" % (hkind, h, got[j], r0, v0[j], hv[j]),
-                          witness={"h": h, "var_err": got, "genetic variance (ddof 0)": v0, "model": M["kind"], "beta": M["beta"], "u_a": M["u_a"],
-                                   "u_d": M["u_d"], "raw": raw}, coords=coords)
-            if not ok:
-                ctx.check("C14.h2", False, site, "var_err has one entry per trait", icls_h, witness={"var_err": got}, coords=coords)
+    session = bool(g.random() < 0.5)
+    if session:
+        hkind = h2_session(ctx, g, pt, pg, mod, M, coords)
     # requested variances (None requests zero, the constructor default; the error variance after set_h2/set_H2 is the protocol's)
     var_env = as_vec(venv, nt); var_rep = as_vec(vrep, nt)
-    var_err = as_vec(pt.var_err if hkind is not None else verr, nt)
+    var_err = as_vec(pt.var_err if session else verr, nt)
     zero = (var_env == 0) & (var_rep == 0) & (var_err == 0)
     # ---- the trial
     try:
